@@ -25,6 +25,11 @@ func TestMakeExemplars(t *testing.T) {
 		{"F3-and-chain-keeps-throw", Bin("&", Bin("&", Bool(true), SCall("throw", Str("T#0#"))), Bool(false)), []*Expr{Int(1)}},
 		{"F24-constant-closure-named-like-static", Let("max", Lam([]string{"a", "b"}, Var("a")), Call(Var("max"), x, Int(2))), []*Expr{Int(1)}},
 		{"mul-chain-regrouping", Bin("*", Bin("*", Int(3), x), Int(5)), []*Expr{Int(7)}},
+		{"impure-in-nested-capturing-closure", Call(Lam([]string{"a"}, Call(Lam([]string{"b"}, Bin("+", Bin("*", Var("a"), Var("b")), SCall("ik", Var("b")))), Int(2))), Int(1)), []*Expr{Int(7)}},
+		{"impure-in-nested-closure-of-constant-map", MCall(MCall(List(Int(1), Int(2), Int(3)), "map", Lam([]string{"a"},
+			MCall(MCall(List(Int(10), Int(20)), "map", Lam([]string{"b"}, Bin("+", Bin("*", Var("a"), Var("b")), SCall("ik", Int(1))))), "sum"))), "sum"), []*Expr{Int(7)}},
+		{"impure-in-recursive-closure-on-constants", Func("r", []string{"n"}, If(Bin("<=", Var("n"), Int(0)), Int(0), Bin("+", SCall("ik", Var("n")), Call(Var("r"), Bin("-", Var("n"), Int(1))))),
+			Call(Var("r"), Int(3))), []*Expr{Int(7)}},
 		{"impure-in-untaken-branch", If(Bin("<", x, Int(0)), SCall("ik", x), Bin("+", SCall("ik", Int(1)), SCall("pk", Int(2)))), []*Expr{Int(7)}},
 	}
 	for _, e := range exs {
